@@ -17,5 +17,15 @@ CONF = {}
 for _f in sorted(glob.glob(os.path.join(_D, "C*.json"))):
     CONF[os.path.basename(_f)[:-5]] = json.load(open(_f))
 
+# tools/conf/extra.json: per-property additions kept apart from the per-property files
+#   translators          appended to the property's translator list
+#   extra_prop_modules   further modules LinfaSpec.Props.<name> whose theorems are obligations of the property
+_x = os.path.join(_D, "extra.json")
+if os.path.exists(_x):
+    for _p, _e in json.load(open(_x)).items():
+        _c = CONF.setdefault(_p, {})
+        for _k, _v in _e.items():
+            _c[_k] = list(_c.get(_k, [])) + [x for x in _v if x not in _c.get(_k, [])]
+
 _h = os.path.join(_D, "hooks.json")
 HOOK_COMMITS = json.load(open(_h)) if os.path.exists(_h) else []
